@@ -24,6 +24,23 @@ func init() {
 	register(ck)
 }
 
+// c20Vectors are fixed (ranges, versions) present in the first pool of every run: spelling variants
+// that compare equal and the shorthand ranges most likely to look at spelling instead of order.
+var c20Vectors = map[string][2][]string{
+	"composer": {{"^1.0.0", "^1.2.3", "^0.3", "~1.2", "^1.0", ">=1.0.0-beta1"}, {"1.0b1", "1.0.0-beta1", "1.0.0b1", "1.0.0-b1", "1.0-beta1", "1.0.0", "1.0", "v1.0.0", "1.2.3-alpha", "1.2.3a1", "1.4.0-beta1", "1.3.0", "1.5.0", "0.3.0-RC1", "0.3"}},
+	"conan":    {{"~1.2", "^1.2", "~1", "^0.2.3"}, {"1.2.5", "01.2.5", "1.02.5", "1.2.5.0", "1.3.0-alpha", "1.2", "1.2.0", "0.2.3", "0.02.3", "0.2.9"}},
+	"gem":      {{"~> 1.2", "~> 1.2.3", "~>1.0"}, {"1.2.5", "1.02.5", "1.2.5.0", "v1.2.5", "1.2", "1.2.0", "2.0.rc1", "2.0.0.rc1", "1.2.3.a", "1.2.3-a"}},
+	"cargo":    {{"^1.2.3", "~1.2", "^0.0.3", "1.*"}, {"1.2.3", "01.2.3", "1.02.3", "1.2.3+b", "1.2.3-alpha", "1.2.3-alpha+b", "0.0.3", "0.0.03", "00.0.3"}},
+	"npm":      {{"^1.2.3", "~1.2.3", "1.x", "1.2.3 - 2.0.0", "^0.0.3"}, {"1.2.3", "v1.2.3", "=1.2.3", "01.2.3", "1.2.3+b", "1.2.03", "2.0.0", "v2.0.0", "2.0.0+x", "0.0.3", "0.0.03"}},
+	"hex":      {{"~>1.2", "~>1.2.3", ">=1.2.0 and <2.0.0"}, {"1.2.3", "01.2.3", "1.02.3", "1.2.3+b", "1.2", "1.2.0", "1.2.0+b"}},
+	"pypi":     {{"~=1.2", "==1.2.*", "~=1.2.3", ">=1.2,<2"}, {"1.2", "1.2.0", "1.02", "1.2.0.0", "1.2rc1", "1.2c1", "1.2.rc1", "1.2.post1", "1.2.r1", "1.2-1" /* rejected */, "1.2.3", "1.2.03"}},
+	"nuget":    {{"[1.2,2.0)", "(1.2,)", "1.2"}, {"1.2", "1.2.0", "1.2.0.0", "v1.2", "01.2", "1.2.0+b", "2.0", "2.0.0", "2.0.0.0"}},
+	"maven":    {{"[1.2,2.0)", "(,1.2]", "[1.2]"}, {"1.2", "1.2.0", "1.2-ga", "1.2.final", "1.2.0-release", "1.02", "2.0", "2", "2.0.0", "2-GA", "1.2-a1", "1.2-alpha-1"}},
+	"debian":   {{">=1.0-0", "<<1.0", "=1.0"}, {"1.0", "1.0-0", "0:1.0", "0:1.0-0", "1.00", "01.0", "1.0-00"}},
+	"golang":   {{">=v1.2.3", "<v2.0.0"}, {"v1.2.3", "1.2.3", "v1.2.3+incompatible", "v2.0.0", "2.0.0", "v2.0.0+b"}},
+	"semver":   {{">=1.2.3", "<2.0.0 >=1.0.0"}, {"1.2.3", "1.2.3+b", "1.2.3+b.1", "2.0.0", "2.0.0+x"}},
+}
+
 func rangeExcluded(ecoName, rs string) bool {
 	if ecoName == "pypi" && strings.Contains(rs, "===") {
 		return true
@@ -140,6 +157,15 @@ func runC20(c *core.Ctx, ck *Check) {
 				}
 			}
 		}
+		var fixedRanges []string
+		if j.k == 0 {
+			if vec, ok := c20Vectors[e.Name]; ok {
+				fixedRanges = vec[0]
+				for _, x := range vec[1] {
+					raw.Add(x, seen)
+				}
+			}
+		}
 		pools := []*Pool{raw}
 		if e.Name == "alpm" {
 			a, b := &Pool{Eco: e}, &Pool{Eco: e}
@@ -187,15 +213,24 @@ func runC20(c *core.Ctx, ck *Check) {
 			}
 			w.Count("equal_classes_with_several_spellings", int64(n-(cls[n-1]+1)))
 			reported := map[string]int{}
-			for k := 0; k < nRanges; k++ {
+			for k := 0; k < nRanges+len(fixedRanges); k++ {
 				var rs string
-				switch r.IntN(6) {
-				case 0:
-					rs = gen.Hostile(gen.RangeOne(e.Name, r), r)
-				case 1: // a range anchored on pool members
-					rs = anchoredRange(e.Name, p, r)
+				if k >= nRanges {
+					rs = fixedRanges[k-nRanges]
+				} else {
+					rs = ""
+				}
+				switch {
+				case rs != "":
 				default:
-					rs = gen.RangeOne(e.Name, r)
+					switch r.IntN(6) {
+					case 0:
+						rs = gen.Hostile(gen.RangeOne(e.Name, r), r)
+					case 1: // a range anchored on pool members
+						rs = anchoredRange(e.Name, p, r)
+					default:
+						rs = gen.RangeOne(e.Name, r)
+					}
 				}
 				if rangeExcluded(e.Name, rs) {
 					continue
